@@ -161,6 +161,15 @@ ext("C14", "; endpoint-scoped by-filter mutations", " Admin world: managed route
 ext("C17", "", " Signed targets with percent-escapes, encoded slashes and query strings in their URLs; the signature is recomputed from the request as received.")
 ext("C20", "", " A symlink or hard link to the configured file passed as path is refused like any other foreign path; the link and its directory stay untouched.")
 
+# wave 8
+ext("C03", "; long-polling consumers", " Long poll (W-conc, SQLite): one caller waits for a message with max_wait 30 s while the other lets time pass and enqueues; the returned lease has to be the one a dequeue at the instant of the successful attempt gives (one reference dequeue per attempt).")
+ext("C05", "; long-polling consumers", " Long-polling callers as in C03: a waiting consumer is woken by the enqueue and gets the message, with a lease counted from that instant.")
+ext("C09", "; other traffic in volume between original and replay", " A flood of requests with fresh nonces (300-12000) between a request and its replay: the replay is still refused.")
+ext("C10", "", " Requests aim at near misses of wildcard host entries (bare domain, longer name without a dot boundary, the domain as a label of another name, trailing dot with port).")
+ext("C12", "; requests overtaking one another at the rate limiter", " Ingress races with a moving clock: a request that has read the time is overtaken at the limiter by one that read a later time; limiter times of racers are intervals [time read, instant of passage]; requests after the race see what the race did to the limiter's bookkeeping.")
+ext("C15", "", " Unknown targets include near-miss spellings of the route's own targets (letter case, trailing slash, one character more or less).")
+ext("C18", "; management mutation on top of an unreloaded restart-required edit", " W-mgmt variant: the file is ahead of the running configuration by an edit that needs a restart; the mutation is refused, the operator's content is back, running behaviour as before.")
+
 NA = {
  "C19": "config Parse/Format/Compile are pure functions of the text: no schedule, clock, I/O or fault for a simulation to decide (DESIGN.md §5)",
 }
